@@ -107,6 +107,14 @@ inductive PageOut (Node : Type) where
   | updated (pageId : PageId) (page : Page Node) (diff : PageDiff) (bucket : Option Nat)
   | reconstructed (pageId : PageId) (page : Page Node) (childrenLeaves : Nat) (diff : PageDiff)
 
+def PageOut.isReconstructed : PageOut Node → Bool
+  | .reconstructed .. => true
+  | .updated .. => false
+
+def PageOut.isUpdated : PageOut Node → Bool
+  | .updated .. => true
+  | .reconstructed .. => false
+
 /-- `PageWalker` -/
 structure Walker (Node : Type) where
   lastPosition : Option Pos
@@ -680,7 +688,7 @@ def Walker.conclude (w : Walker Node) : WR (Output Node) :=
   | .panic s => .panic s
   | .err e => .err e
   | .ok w =>
-    if w.outputPages.any (fun o => match o with | .reconstructed .. => true | _ => false) then
+    if w.outputPages.any PageOut.isReconstructed then
       .panic "conclude: unreachable!()"
     else if w.parentPage.isNone then .ok (.root w.root w.outputPages)
     else .ok (.childPageRoots w.childPageRoots w.outputPages)
@@ -738,7 +746,7 @@ def Walker.reconstruct (ps : PageSet Node) (w : Walker Node) (position : Pos) (o
             | .panic s => .panic s
             | .err e => .err e
             | .ok w =>
-              if w.outputPages.any (fun o => match o with | .updated .. => true | _ => false) then
+              if w.outputPages.any PageOut.isUpdated then
                 .panic "reconstruct: unreachable!()"
               else
                 match w.childPageRoots with
